@@ -28,6 +28,7 @@ ASSUMPTIONS = [
     "SCI: the driver transmits 16-bit frames in (hi, mid) but reads observed 16-bit frames from (mid, lo): recorded as an observation",
     "UniPi sets the 'twice' option AND writes the registers twice; ATX has no send-twice prefix for 24-bit frames: observations (undocumented gateway behaviour)",
 ]
+CHAIN_STRIDE = {'quick': 6, 'thorough': 10}      # every k-th shard is re-run in chains inside one process (non-initial process states)
 BOUNDS = {"quick": "all classes; 4096 raw frames per async driver (all 65536 for the sync ones); 5 start sequence numbers x 700 sends; lengths 1..64; all 256 codes",
           "thorough": "all 65536 raw frames per driver; all 255 start sequence numbers x 700 sends"}
 
